@@ -390,6 +390,13 @@ func gen(c *common.Ctx, emit func(...string)) {
 		op("eval", "tick\n"+w)
 		op("eval", "put $g0 $g1 $g2 $lst $mp; tick")
 	}
+	// 1c. family "modns" (modns.go): references into the namespace of a module the evaler knows but the
+	// code has not imported — the only sources on which the module names Check passes to compile matter
+	// (theorem C16_compile_ignores_modules; seeded change C16-check-autofix-adds-namespace)
+	{
+		var cnt int64
+		genModNs(c, emit, reset, probeModules(newEvaler(&cnt, "/nonexistent")))
+	}
 	// the binary on each of them
 	gb := newPG(r, true)
 	for i, b := range gb.staticErrors() {
@@ -439,7 +446,7 @@ func gen(c *common.Ctx, emit func(...string)) {
 	}
 
 	// 3. the real binary on generated programs (self-contained: own prelude)
-	nb := c.Scale(25, 800)
+	nb := c.Scale(21, 800)
 	for i := 0; i < nb; i++ {
 		g := newPG(r, true)
 		src, _ := g.program()
